@@ -35,7 +35,20 @@ var surfaceExcluded = map[string]string{
 var indexExceptions = map[string]string{
 	"pkg/protocol.Request.FormFile:index[0]#1":          "mime/multipart.Form.File only holds non-empty slices (ReadForm appends a header before storing the key), and the nil test above covers the missing key",
 	"pkg/route.node.findCaseInsensitivePath:index[0]#2": "tree invariant label == prefix[0] (newNode): under `n.children[i].label == '/'` the disjunct `n.prefix == \"*\"` is false, so the short-circuit never evaluates children[0]",
-	"pkg/route.node.findCaseInsensitivePath:index[0]#3": "path is non-empty here: the only external caller passes utils.CleanPath(…) (never empty), recursive calls pass the same non-empty path, and the branch that shortens path returns when the remainder is empty",
+}
+
+// conditional exceptions: the obligation holds under a reviewed precondition on a parameter,
+// and the analysis itself re-checks everything that depends on the function's own code: with
+// len(param) ≥ n assumed at entry the obligation must be proven, and every recursive call must
+// establish the same bound for its argument. Only the external callers are taken on review.
+type condException struct {
+	param  string // parameter name
+	n      int64
+	reason string
+}
+
+var indexCondExceptions = map[string]condException{
+	"pkg/route.node.findCaseInsensitivePath:index[0]#3": {"path", 1, "the only external caller (Engine.ServeHTTP → redirectFixedPath) passes utils.CleanPath(…), which is never empty; checked by the analysis: with len(path) ≥ 1 at entry the access is in bounds on every path (the branch that shortens path leaves when the remainder is empty) and every recursive call passes a path of length ≥ 1"},
 }
 
 type zoneCtx struct {
@@ -335,7 +348,13 @@ func c03Index(e *Env) {
 					r.Fail(rule, key, pos, desc, why)
 				}
 			default:
-				if reason, ok := indexExceptions[key]; ok {
+				if ce, ok := indexCondExceptions[key]; ok {
+					if why := checkCondException(z, fn, o, ce); why == "" {
+						r.Except(rule, key, pos, desc, ce.reason)
+					} else {
+						r.Fail(rule, key, pos, desc, why)
+					}
+				} else if reason, ok := indexExceptions[key]; ok {
 					r.Except(rule, key, pos, desc, reason)
 				} else if o.Unreached {
 					r.Fail(rule, key, pos, desc, "the obligation lies in a block the analysis did not reach or did not converge on; undecided")
@@ -352,4 +371,37 @@ func c03Index(e *Env) {
 		ks = append(ks, k)
 	}
 	sort.Strings(ks)
+}
+
+// checkCondException re-analyses fn with len(param) ≥ n assumed at entry: the obligation at
+// o.Instr must then be proven, and every static recursive call must pass an argument for that
+// parameter whose length ≥ n is established. Returns "" when both hold.
+func checkCondException(z *zoneCtx, fn *ssa.Function, o *zone.Oblig, ce condException) string {
+	pi := -1
+	for i, p := range fn.Params {
+		if p.Name() == ce.param {
+			pi = i
+		}
+	}
+	if pi < 0 {
+		return fmt.Sprintf("the reviewed precondition names parameter %q, which %s no longer has; undecided", ce.param, z.name[fn])
+	}
+	var bad []string
+	an := z.prog.Analyze(fn, zone.Options{Index: true, ParamLenLB: map[int]int64{pi: ce.n},
+		AtCall: func(a *zone.Analyzer, d *zone.DBM, call *ssa.Call) {
+			if call.Call.StaticCallee() != fn || pi >= len(call.Call.Args) {
+				return
+			}
+			if zone.Tub(d, zone.ConstTerm(ce.n), a.LenTerm(call.Call.Args[pi])) > 0 {
+				bad = append(bad, fmt.Sprintf("the recursive call at line %d passes a %s whose length ≥ %d is not established", z.prog.Prog.Fset.Position(call.Pos()).Line, ce.param, ce.n))
+			}
+		}})
+	for _, o2 := range an.Obligs {
+		if o2.Instr == o.Instr && o2.Kind == o.Kind {
+			if !o2.Proven {
+				bad = append(bad, fmt.Sprintf("even with len(%s) ≥ %d at entry the access is not in bounds on every path: some path reaches it after %s was shortened to the empty string", ce.param, ce.n, ce.param))
+			}
+		}
+	}
+	return strings.Join(bad, "; ")
 }
